@@ -962,6 +962,31 @@ func gen(tier string, out *vlib.Out) {
 		out.Line("sum")
 	}
 
+	// ---- corpus: zero keys bound to zero / non-zero values (mapx.ToMap, pairs: equal lengths), and the
+	// extreme ints. Only overflow-free calls on the extremes (the models of Sum / dbl / addidx are over
+	// unbounded integers): every partial sum below stays inside int64, the transformations are `id`.
+	for _, c := range [][2]string{{"0,1,0", "0,0,1"}, {"0", "0"}, {"0,0", "1,0"}, {"1,0,-1", "0,0,0"}} {
+		out.Line("new i %s %s", c[0], c[1])
+		genBinary(out, iEqv)
+		genKV(out, c[0], c[1])
+		genUnary(out, c[0], []string{"0", "1"}, iPreds, iIpreds, tfs, iKfs, "0")
+		out.Line("max")
+		out.Line("min")
+		out.Line("sum")
+	}
+	const maxI, minI = "9223372036854775807", "-9223372036854775808"
+	for _, c := range [][2]string{{maxI + "," + minI + ",0", minI + ",0"}, {minI + "," + maxI, maxI + "," + maxI}, {minI, "0"}, {maxI, minI},
+		{maxI + ",-1,1", "1,0," + minI}, {"-1," + maxI, minI + ",1"}, {"0," + minI, "0," + maxI}, {minI + ",1", "1," + minI}} {
+		out.Line("new i %s %s", c[0], c[1])
+		genBinary(out, []string{"eq", "le", "t", "f"})
+		genKV(out, c[0], c[1])
+		genUnary(out, c[0], []string{maxI, minI, "0"}, []string{"eq:" + maxI, "eq:" + minI, "ne:" + minI, "lt:" + minI, "lt:" + maxI, "lt:0", "t", "f"},
+			[]string{"ieven", "ilt:1", "eq:" + minI, "lt:0", "t", "f"}, []string{"id"}, []string{"id", "const"}, minI)
+		out.Line("max")
+		out.Line("min")
+		out.Line("sum")
+	}
+
 	// ---- exhaustive: all pairs of slices over {a,b,c} up to maxLen, the binary functions -------
 	all := allSlices([]string{"a", "b", "c"}, maxLen)
 	for _, s := range all {
